@@ -165,21 +165,9 @@ func (it *indexedMessageIterator) parseSummarySection() error {
 			}
 			// if the chunk overlaps with the requested parameters, load it
 			if (it.end == 0 && it.start == 0) || (beforeEnd(idx.MessageStartTime, it.end) && idx.MessageEndTime >= it.start) {
-				// Can't infer absence of a topic if there are no message indexes.
-				if len(idx.MessageIndexOffsets) == 0 {
-					it.chunkIndexes = append(it.chunkIndexes, idx)
-					continue
-				}
-				// Otherwise, scan the message index offsets and see if we are
-				// selecting it. ChannelInfo is set only for selected topics.
-				// NB: It would be nice if we had a more compact/direct
-				// representation of what channels are in a chunk.
-				for chanID := range idx.MessageIndexOffsets {
-					if it.channels.Get(chanID) != nil {
-						it.chunkIndexes = append(it.chunkIndexes, idx)
-						break
-					}
-				}
+				// whether the chunk holds a selected channel is decided once the whole summary has been
+				// read (see TokenFooter): channel records may follow the chunk indexes.
+				it.chunkIndexes = append(it.chunkIndexes, idx)
 			}
 		case TokenStatistics:
 			stats, err := ParseStatistics(record)
@@ -188,6 +176,24 @@ func (it *indexedMessageIterator) parseSummarySection() error {
 			}
 			it.statistics = stats
 		case TokenFooter:
+			// Drop chunks whose message indexes show none of the selected channels. ChannelInfo is set
+			// only for selected topics. Can't infer absence of a topic if there are no message indexes.
+			// NB: It would be nice if we had a more compact/direct representation of what channels
+			// are in a chunk.
+			selected := it.chunkIndexes[:0]
+			for _, idx := range it.chunkIndexes {
+				keep := len(idx.MessageIndexOffsets) == 0
+				for chanID := range idx.MessageIndexOffsets {
+					if it.channels.Get(chanID) != nil {
+						keep = true
+						break
+					}
+				}
+				if keep {
+					selected = append(selected, idx)
+				}
+			}
+			it.chunkIndexes = selected
 			// sort chunk indexes in the order that they will need to be loaded, depending on the specified
 			// read order.
 			switch it.order {
